@@ -8,6 +8,11 @@
           | (req (kind stdintro)                        (a OBS)              (b OBS))
           | (req (kind chain) (query "..") (chain C..)  (a OBS LINES FINAL)  (b OBS LINES FINAL))
           | (req (kind doc) (query "..") (vars "..") (tags ..) (a OBS) (b OBS))
+          | (req (kind sdoc) (query "..") (doc (frags (frag "F" id "T" (SEL..))..) (sels SEL..))
+                 (a OBS LINES TREE) (b OBS LINES TREE))
+    SEL  := (field id "key" "f" (SEL..)) | (typename id "key") | (inline id (some "T")|(none) (SEL..))
+          | (spread id "F")                       id = the source line of the node
+    TREE := (tree no-data | null | leaf | (typename "T") | (list TREE..) | (obj ("key" TREE)..))
     OBS  := (obs (verdict V) (resp (data J) (errors E..)) (calls "Type.field"..))
     side a = the schema built from D with Request.Features = features,
     side b = the schema built from the harness's own erasure D' (every surviving type registered)
@@ -19,7 +24,7 @@
     request (a = b, no gated resolver call); schema.New's verdict = [schema_ok]; the model against
     side a and side b (introspection probe, chains); the physically reduced schema. *)
 From Coq Require Import List NArith ZArith Bool String.
-From ApiFu Require Import Base.Sexp Feat.FeaturesModel Feat.FeaturesSpec.
+From ApiFu Require Import Base.Sexp Feat.FeaturesModel Feat.FeaturesSpec Feat.FeaturesDocModel.
 Import ListNotations.
 Open Scope string_scope.
 
@@ -251,6 +256,147 @@ Definition model_chain (fx : fixes) (S : schema) (F : features) (c : list cnode)
   | Forged => None
   end.
 
+
+(** ** selection-set documents: decoding, what the model says, well-formedness *)
+Fixpoint dec_sel (s : sexp) : option sel :=
+  let dec_list := (fix go (l : list sexp) : option sels :=
+                     match l with
+                     | [] => Some SNil
+                     | x :: r => match dec_sel x, go r with
+                                 | Some a, Some b => Some (SCons a b)
+                                 | _, _ => None
+                                 end
+                     end) in
+  match s with
+  | SL [SSym t; SZ id; SStr key; SStr f; SL sub] =>
+      if String.eqb t "field" then option_map (SField (Z.to_nat id) key f) (dec_list sub) else None
+  | SL [SSym t; SZ id; SStr key] =>
+      if String.eqb t "typename" then Some (STypename (Z.to_nat id) key)
+      else if String.eqb t "spread" then Some (SSpread (Z.to_nat id) key) else None
+  | SL [SSym t; SZ id; tc; SL sub] =>
+      if String.eqb t "inline" then
+        match as_option as_bytes tc, dec_list sub with
+        | Some tc', Some sub' => Some (SInline (Z.to_nat id) tc' sub')
+        | _, _ => None
+        end
+      else None
+  | _ => None
+  end.
+Fixpoint dec_sels (l : list sexp) : option sels :=
+  match l with
+  | [] => Some SNil
+  | x :: r => match dec_sel x, dec_sels r with
+              | Some a, Some b => Some (SCons a b)
+              | _, _ => None
+              end
+  end.
+Definition dec_frag (s : sexp) : option fragdef :=
+  match tagged "frag" s with
+  | Some [SStr n; SZ id; SStr tc; SL sub] =>
+      option_map (fun b => {| fr_name := n; fr_id := Z.to_nat id; fr_tc := tc; fr_sels := b |}) (dec_sels sub)
+  | _ => None
+  end.
+Definition dec_sdoc (l : list sexp) : option sdoc :=
+  match field "frags" l, field "sels" l with
+  | Some fs, Some ss =>
+      match map_opt dec_frag fs, dec_sels ss with
+      | Some fs', Some ss' => Some {| d_frags := fs'; d_sels := ss' |}
+      | _, _ => None
+      end
+  | _, _ => None
+  end.
+
+Fixpoint enc_rval (v : rval) : sexp :=
+  match v with
+  | RNull => SSym "null"
+  | RLeaf => SSym "leaf"
+  | RTypename o => tag "typename" [SStr o]
+  | RList x => tag "list" [enc_rval x]
+  | RObj fs => tag "obj" ((fix go (l : list (name * rval)) : list sexp :=
+                             match l with [] => [] | (k, x) :: r => SL [SStr k; enc_rval x] :: go r end) fs)
+  end.
+
+(** a null somewhere in the response data: an error was caught at a nullable position *)
+Fixpoint rval_has_null (v : rval) : bool :=
+  match v with
+  | RNull => true
+  | RLeaf | RTypename _ => false
+  | RList x => rval_has_null x
+  | RObj fs => (fix go (l : list (name * rval)) : bool :=
+                  match l with [] => false | (_, x) :: r => rval_has_null x || go r end) fs
+  end.
+
+Definition sdoc_exec_classes (fx : fixes) (S : schema) (F : features) (d : sdoc) : list string :=
+  match snd (run fx S F [] (sdoc_prog (sdoc_fuel d) d)) with
+  | Done (_, Some (Some (log, v))) =>
+      (match v with
+       | None => ["sdoc-error-reached-the-top"]
+       | Some x => if rval_has_null x then ["sdoc-error-caught-at-nullable"] else []
+       end ++ (if is_nil log then [] else ["sdoc-resolvers-invoked"]))%list
+  | _ => []
+  end.
+
+Fixpoint insert_nat (x : nat) (l : list nat) : list nat :=
+  match l with
+  | [] => [x]
+  | y :: r => if Nat.eqb x y then l else if Nat.ltb x y then x :: l else y :: insert_nat x r
+  end.
+Definition sort_nat (l : list nat) : list nat := fold_right insert_nat [] l.
+
+(** the resolver invocations as [C13_gated_never_called] reads them off a run: the GetField
+    answers ([resolved_fields]) of the part of the trace that follows validation *)
+Definition exec_trace_calls (fx : fixes) (S : schema) (F : features) (d : sdoc) : list (name * name) :=
+  let nval := List.length (fst (run fx S F [] (sdoc_validate d))) in
+  map (fun x => fst x) (resolved_fields (skipn nval (fst (run fx S F [] (sdoc_prog (sdoc_fuel d) d))))).
+
+Definition calls_eqb (a b : list (name * name)) : bool :=
+  sexp_eqb (SL (map enc_call a)) (SL (map enc_call b)).
+
+(** (lines, calls, tree); [None] also when the executor's own log differs from the GetField answers
+    of its trace (then the theorem about resolver invocations would not speak about this log) *)
+Definition model_sdoc (fx : fixes) (S : schema) (F : features) (d : sdoc) : option sexp :=
+  match snd (run fx S F [] (sdoc_prog (sdoc_fuel d) d)) with
+  | Done (errs, r) =>
+      let lines := tag "lines" (map of_nat (sort_nat errs)) in
+      match r with
+      | None => Some (SL [lines; tag "calls" []; tag "tree" [SSym "no-data"]])
+      | Some None => None                                         (* out of fuel *)
+      | Some (Some (log, v)) =>
+          if calls_eqb log (exec_trace_calls fx S F d) then
+            Some (SL [lines; tag "calls" (map enc_call log);
+                      tag "tree" [match v with Some x => enc_rval x | None => SSym "null" end]])
+          else None
+      end
+  | Forged => None
+  end.
+
+(** the documents the transcription speaks about: response keys pairwise distinct (the
+    field-merging rule and the merging of selection sets are not transcribed), fragment names
+    distinct, every spread names a defined fragment, every fragment is spread somewhere *)
+Fixpoint sel_keys (s : sel) : list name :=
+  match s with
+  | SField _ k _ sub => (k :: sels_keys sub)%list
+  | STypename _ k => [k]
+  | SInline _ _ sub => sels_keys sub
+  | SSpread _ _ => []
+  end
+with sels_keys (l : sels) : list name :=
+  match l with SNil => [] | SCons s r => (sel_keys s ++ sels_keys r)%list end.
+Fixpoint sel_spreads (s : sel) : list name :=
+  match s with
+  | SField _ _ _ sub => sels_spreads sub
+  | STypename _ _ => []
+  | SInline _ _ sub => sels_spreads sub
+  | SSpread _ f => [f]
+  end
+with sels_spreads (l : sels) : list name :=
+  match l with SNil => [] | SCons s r => (sel_spreads s ++ sels_spreads r)%list end.
+Definition doc_wf (d : sdoc) : bool :=
+  let spreads := (sels_spreads (d_sels d) ++ flat_map (fun f => sels_spreads (fr_sels f)) (d_frags d))%list in
+  let fnames := map fr_name (d_frags d) in
+  nodup (sels_keys (d_sels d) ++ flat_map (fun f => sels_keys (fr_sels f)) (d_frags d))%list &&
+  nodup fnames && forallb (fun x => mem x fnames) spreads && forallb (fun x => mem x spreads) fnames.
+
 (** ** observations *)
 Record obs := { o_verdict : sexp; o_resp : sexp; o_calls : list name; o_rest : list sexp }.
 Definition dec_obs (l : list sexp) : option obs :=
@@ -339,12 +485,14 @@ Definition oracle_req (S E : schema) (F : features) (r : list sexp) : option sex
                                               [SSym k; match field1 "query" r with Some q => q | None => SL [] end]) in
           if existsb (gated_call E) (o_calls a) then fail "gated-resolver-called"
           else if negb (sexp_eqb (o_verdict a) (o_verdict b)) then
-            fail (if String.eqb k "chain" then "validate:chain" else if String.eqb k "doc" then "validate:document" else "validate:" ++ k)
+            fail (if String.eqb k "chain" then "validate:chain" else if String.eqb k "doc" then "validate:document"
+                  else if String.eqb k "sdoc" then "validate:selection-sets" else "validate:" ++ k)
           else if String.eqb k "introspect" &&
                   negb (match o_rest a, o_rest b with [x], [y] => sexp_sim x y | _, _ => false end) then
             fail (match o_rest a, o_rest b with [x], [y] => intro_key x y | _, _ => "intro:shape" end)
           else if negb (sexp_eqb (o_resp a) (o_resp b)) then
             fail (if String.eqb k "chain" then "execute:chain" else if String.eqb k "doc" then "execute:document"
+                  else if String.eqb k "sdoc" then "execute:selection-sets"
                   else if String.eqb k "stdintro" then "intro:standard-query" else "response:" ++ k)
           else None
       | _, _ => Some (v_bad "observation")
@@ -392,6 +540,28 @@ Definition compare_req (S E : schema) (F G : features) (r : list sexp) : option 
                 | None => Some (v_bad "chain")
                 end
             | None => Some (v_bad "chain")
+            end
+          else if String.eqb k "sdoc" then
+            match field "doc" r with
+            | Some dl =>
+                match dec_sdoc dl with
+                | Some d =>
+                    if negb (doc_wf d) then Some (v_bad "sdoc-not-well-formed")
+                    else
+                    let seen (o : obs) := match o_rest o with
+                                          | [l; t] => SL [l; tag "calls" (map SStr (o_calls o)); t]
+                                          | _ => SL []
+                                          end in
+                    match model_sdoc fixed S F d, model_sdoc fixed E G d with
+                    | Some ma, Some mb =>
+                        if negb (sexp_eqb ma (seen a)) then Some (v_mismatch "sdoc-full-schema" [ma; seen a])
+                        else if negb (sexp_eqb mb (seen b)) then Some (v_mismatch "sdoc-erased-schema" [mb; seen b])
+                        else None
+                    | _, _ => Some (v_mismatch "sdoc-program-forged-a-handle-or-ran-out-of-fuel-or-log-differs-from-trace" [])
+                    end
+                | None => Some (v_bad "sdoc")
+                end
+            | None => Some (v_bad "sdoc")
             end
           else None
       | _, _ => Some (v_bad "observation")
@@ -473,6 +643,28 @@ Definition req_classes (S : schema) (F G : features) (r : list sexp) : list stri
                               end
                      | _, _ => []
                      end
+                 | None => []
+                 end
+    | None => []
+    end
+  else if String.eqb k "sdoc" then
+    match field "doc" r with
+    | Some dl => match dec_sdoc dl with
+                 | Some d =>
+                     (if valid then "sdoc-valid" else "sdoc-invalid") ::
+                     ((if is_nil (d_frags d) then [] else ["sdoc-with-named-fragments"]) ++
+                     sdoc_exec_classes fixed S F d ++
+                     match model_sdoc fixed S F d, model_sdoc fixed S G d with
+                     | Some x, Some y =>
+                         if sexp_eqb x y then []
+                         else "sdoc-gating-matters" ::
+                              match first_gate (fst (run fixed S F [] (sdoc_prog (sdoc_fuel d) d)))
+                                               (fst (run fixed S G [] (sdoc_prog (sdoc_fuel d) d))) with
+                              | Some t => [("sdoc-gate-" ++ t)%string]
+                              | None => []
+                              end
+                     | _, _ => []
+                     end)%list
                  | None => []
                  end
     | None => []
@@ -570,7 +762,7 @@ Definition check_case (S : schema) (F G : features) (accepted : bool) (l : list 
                         | None =>
                           let cl := dedup (flat_map (req_classes S F G) rs') in
                           let deleted := negb (sexp_eqb (enc_schema E) sd) in
-                          let matters := existsb (fun x => String.eqb x "introspect-gating-matters" || String.eqb x "chain-gating-matters") cl in
+                          let matters := existsb (fun x => String.eqb x "introspect-gating-matters" || String.eqb x "chain-gating-matters" || String.eqb x "sdoc-gating-matters") cl in
                           v_ok (case_kind l :: "schema-accepted" :: edit_class l true ++
                                 (if deleted then ["something-erased"] else ["nothing-erased"]) ++
                                 cl ++ (if deleted && matters then ["nontrivial"] else []))%list
